@@ -84,6 +84,7 @@ impl GroupCase {
                     if *thread { ",thread" } else { "" }
                 ),
                 GOp::Act(Action::Drop) => "drop".into(),
+                GOp::Act(Action::FireAll) => "fire_all".into(),
             })
             .collect();
         format!(
@@ -196,7 +197,14 @@ impl RawGroup for FPlain {
         Pin::new(&mut self.0).poll_next(cx).map(|o| o.map(|v| (None, v)))
     }
     fn extend(&mut self, v: Vec<FNode>) -> bool {
-        self.0.extend(v);
+        // sometimes from an iterator without an upper size hint (from_fn),
+        // sometimes from the Vec itself (exact hint)
+        if v.len() % 2 == 1 {
+            let mut it = v.into_iter();
+            self.0.extend(std::iter::from_fn(move || it.next()));
+        } else {
+            self.0.extend(v);
+        }
         true
     }
     raw_common!();
@@ -213,7 +221,12 @@ impl RawGroup for FKeyed {
     fn extend(&mut self, v: Vec<FNode>) -> bool {
         // through DerefMut to the group
         use std::ops::DerefMut;
-        self.0.deref_mut().extend(v);
+        if v.len() % 2 == 1 {
+            let mut it = v.into_iter();
+            self.0.deref_mut().extend(std::iter::from_fn(move || it.next()));
+        } else {
+            self.0.deref_mut().extend(v);
+        }
         true
     }
     raw_common!();
@@ -700,7 +713,12 @@ fn build_group(case: &GroupCase, top: NodeId) -> Box<dyn GroupDyn> {
                             n
                         })
                         .collect();
-                    (kids.into_iter().collect(), ids)
+                    if kids.len() % 2 == 1 {
+                        let mut it = kids.into_iter();
+                        (std::iter::from_fn(move || it.next()).collect(), ids)
+                    } else {
+                        (kids.into_iter().collect(), ids)
+                    }
                 }
             };
             if case.keyed {
@@ -902,7 +920,11 @@ pub fn gen_group_case(bytes: &[u8], gp: &GroupProfile) -> GroupCase {
     let mut ops = Vec::with_capacity(nops);
     let extend_w = if gp.fam == Family::FutGroup { 3 } else { 0 };
     for _ in 0..nops {
-        let k = c.weighted(&[(0u8, 24), (1, 30), (2, 22), (3, 12), (4, 4), (5, extend_w), (6, gp.p_drop), (7, 2)]);
+        let k = c.weighted(&[(0u8, 24), (1, 30), (2, 22), (3, 12), (4, 4), (5, extend_w), (6, gp.p_drop), (7, 2), (8, 3)]);
+        if k == 8 {
+            ops.push(GOp::Act(Action::FireAll));
+            continue;
+        }
         if k == 7 {
             // a burst of inserts of short-lived members: many members ending in
             // one poll, tables growing across their inline capacities (10, 23)
